@@ -37,5 +37,5 @@ out = ['## 9. Seeded changes and which checks catch them', '',
        '(C01, C02, C06, C08, C11), long-record × many-period batches (C02), non-integer refinement factors (C03), weak-motion',
        'amplitudes (C09). The reverses of the `fix:` commits made in this work were used as additional mutants by the builders.', '',
        '| seed | clause broken | needs | result (quick tier) |', '|---|---|---|---|'] + rows
-open(os.path.join(V, 'DESIGN_sec9.md'), 'w').write('\n'.join(out) + '\n')
+open(os.path.join(V, 'design_parts/09_seeded_changes.md'), 'w').write('\n'.join(out) + '\n')
 print(len(rows), 'seeds;', sum('MISSED' in r for r in rows), 'missed;', sum('not run' in r for r in rows), 'not run')
